@@ -1053,6 +1053,12 @@ class RZILTransformer(Transformer):
                 # The last statement is part of the block as well.
                 return [items[0], items[1]]
             return items[0]
+        if isinstance(items[1], Effect) and (
+            not isinstance(items[1], Pure) or items[1].value_type.group & VTGroup.VOID
+        ):
+            # The last statement has no value (an assignment, a void call).
+            # It is a statement of the block like the ones before it.
+            return [items[0], items[1]]
         p: Pure = items[1]
         e: Effect = items[0]
         return self.resolve_hybrid(
